@@ -1,4 +1,5 @@
 import ALock.Lemmas.RwLockWord
+import ALock.Lemmas.AtomicRwLock
 
 /-!
 # C02 — RwLock: many readers xor one writer, at most one upgradable reader
@@ -15,8 +16,13 @@ The invariant is `WordInv` (`Lemmas/RwLock.lean`): both words are *exactly* dete
 what:  `mutex.state = (W + U + PW + PU) + 2·starved`,  `state = (W + PW + PU) + 2·(R + U)`,
 `W + U + PW + PU ≤ 1`, and a write guard is alone.
 
-Not covered by these theorems: interleavings of atomic operations, and the happens-before clause
-(`C02_hb_partial`, memory-ordering table) — see DESIGN.md.
+Part 2 (`ALock.Atomic.RwLock`) proves the exclusion clause for **every interleaving of the atomic
+operations** of `src/rwlock/raw.rs` on `RawRwLock::state` (and acquisitions / releases of the inner
+mutex) by any number of threads, including the states *inside* an operation.  It is tied to the code
+by the site table extracted from /repo's sources on every run (`C02_shape_ok`).
+
+Not covered: the happens-before clause for the RwLock (the orderings are in the generated table but
+no view theorem is stated for them; the loom scenarios search for a missing edge).
 -/
 
 namespace ALock.RwLock
@@ -71,3 +77,43 @@ example :
     nG s .write = 0 ∧ nG s .read = 3 ∧ nG s .uread = 0 ∧ s.state = 6 ∧ s.m.st = 0 := by decide
 
 end ALock.RwLock
+
+/-! ## Part 2 — every interleaving of the atomic operations -/
+
+namespace ALock.Atomic.RwLock
+
+/-- the model's steps are the operations the code performs on `RawRwLock::state` and the inner
+mutex, function by function, in source order (generated table) -/
+theorem C02_shape_ok : sites.map Site.shape = expectedShapes := by decide
+
+def upgradables (l : List Pc) : Nat := (l.map fun p => if p = .u then 1 else 0).sum
+
+/-- **C02 (exclusion under every interleaving).** After any sequence of atomic steps by any number
+of agents: at most one write guard; while one exists nobody has shared access (no read guard, no
+upgradable guard, no write guard in the middle of being downgraded); at most one upgradable guard. -/
+theorem C02_interleaved (l : List Step) :
+    writers (run {} l).ags ≤ 1 ∧
+    (1 ≤ writers (run {} l).ags → readers (run {} l).ags = 0) ∧
+    upgradables (run {} l).ags ≤ 1 := by
+  have h := run_inv {} l init_inv
+  have h1 := sum_le_of_pointwise (run {} l).ags Pc.wr Pc.bt wr_le_bt
+  have h2 := sum_le_of_pointwise (run {} l).ags Pc.bt Pc.mh bt_le_mh
+  have h3 := sum_le_of_pointwise (run {} l).ags (fun p => if p = .u then 1 else 0) Pc.mh
+    (by intro p; cases p <;> simp [Pc.mh])
+  have := h.mex
+  refine ⟨?_, h.alone, ?_⟩ <;> simp only [writers, bits, mholders, upgradables] at * <;> omega
+
+/-- the word says who is inside: writer bit + 2 · readers, at every interleaving point -/
+theorem C02_interleaved_word (l : List Step) :
+    (run {} l).state = bits (run {} l).ags + 2 * readers (run {} l).ags :=
+  (run_inv {} l init_inv).word
+
+/-- non-vacuity: a reader races with a writer that waits for it; an upgradable reader upgrades;
+the write guard is downgraded step by step -/
+example :
+    let s := run {} [.spawn, .spawn, .spawn, .rLoad 0, .mLock 1, .rCas 0, .wFetchOr 1, .wCheck 1,
+      .rLoad 2, .rUnlock 0, .wCheck 1, .dgW1 1, .rLoad 2, .dgW2 1, .rCas 2, .mLock 0, .uLoad 0, .uCas 0,
+      .upgrade 0]
+    s.ags = [.pu, .r, .r] ∧ s.state = 5 := by decide
+
+end ALock.Atomic.RwLock
